@@ -49,6 +49,15 @@ Theorem C13_declared_connections : forall ps cs nm D rl,
 Proof. exact join_declared. Qed.
 Print Assumptions C13_declared_connections.
 
+(* what the user sees as Domain.interfaces (the Union sorted by name) is exactly the set of dictionary values
+   the theorems above speak about *)
+Theorem C13_interfaces_are_the_dictionary_values : forall D,
+  NoDup (map i_name (d_conn D)) ->
+  (forall i, In i (interfaces D) <-> In i (d_conn D))
+  /\ NoDup (interfaces D) /\ StronglySorted (kle i_name) (interfaces D).
+Proof. exact interfaces_In. Qed.
+Print Assumptions C13_interfaces_are_the_dictionary_values.
+
 (* all patches are interiors: the interior of the join is the sorted duplicate-free list of the
    interiors of the patches *)
 Theorem C13_interiors : forall ps cs nm D,
@@ -119,6 +128,93 @@ Theorem C13_mapped_ncube_is_patch : forall m p,
             /\ d_mapping d = MSingle m /\ d_conn d = [].
 Proof. exact mapped_patch_like. Qed.
 Print Assumptions C13_mapped_ncube_is_patch.
+
+(* sub-domain extraction: the arms that do not rebuild a domain *)
+Theorem C13_get_subdomain_empty : forall d, get_subdomain d (SelTuple []) = Ok None.
+Proof. exact get_subdomain_empty. Qed.
+Print Assumptions C13_get_subdomain_empty.
+
+Theorem C13_get_subdomain_whole : forall d l p1 p2 r,
+  d_interiors d = p1 :: p2 :: r -> l <> [] -> valid_tuple d l = true ->
+  (length l = length (interior_names d) \/ smem (d_name d) l = true) ->
+  get_subdomain d (SelTuple l) = Ok (Some d).
+Proof. exact get_subdomain_whole. Qed.
+Print Assumptions C13_get_subdomain_whole.
+
+Theorem C13_get_subdomain_invalid : forall d l,
+  l <> [] -> valid_tuple d l = false -> get_subdomain d (SelTuple l) = Err EAssert.
+Proof. exact get_subdomain_invalid. Qed.
+Print Assumptions C13_get_subdomain_invalid.
+
+Theorem C13_get_subdomain_single_patch : forall d p,
+  d_interiors d = [p] -> get_subdomain d (SelStr (pname p)) = Ok (Some d).
+Proof. exact get_subdomain_single_patch. Qed.
+Print Assumptions C13_get_subdomain_single_patch.
+
+(* the general arm: a proper selection of patches.  The sub-domain consists of the selected patches; its
+   boundary is made of their faces that are in the boundary of the whole domain plus the sides, on a selected
+   patch, of the interfaces towards patches outside the selection; its interfaces are the interfaces of the
+   whole domain between two different selected patches.  [sub_idict d] is the dictionary of the interfaces
+   of d keyed by (minus patch, plus patch); [own d n] the boundary faces of d on patch n. *)
+Theorem C13_get_subdomain_spec : forall d l U S,
+  sub_hyps d l U -> get_subdomain d (SelTuple l) = Ok (Some S) ->
+  (forall p, In p (d_interiors S) <-> In p (d_interiors d) /\ In (pname p) l)
+  /\ (forall f, In f (d_boundary S) <->
+        exists n, In n l /\
+          (In f (own d n) \/
+           exists o i, In o (interior_names d) /\ o <> n /\ ~ In o l /\ In i (sub_idict d) /\
+                       ((ikey_eqb n o i = true /\ f = i_minus i) \/ (ikey_eqb o n i = true /\ f = i_plus i))))
+  /\ (forall i, In i (d_conn S) <->
+        In i (sub_idict d) /\ exists a b, In a l /\ In b l /\ a <> b /\ ikey_eqb a b i = true).
+Proof. exact get_subdomain_spec. Qed.
+Print Assumptions C13_get_subdomain_spec.
+
+Theorem C13_own_faces : forall d U n f, fwf U -> incl (d_boundary d) U ->
+  (In f (own d n) <->
+   In f (d_boundary d) /\ pname (f_patch f) = n /\ f_axis f < d_dim d /\ (f_ext f = 1%Z \/ f_ext f = (-1)%Z)).
+Proof. exact own_In. Qed.
+Print Assumptions C13_own_faces.
+
+Theorem C13_get_subdomain_hypotheses_decidable : forall d l,
+  sub_hyps_b d l = true -> sub_hyps d l (sub_U d).
+Proof. exact sub_hyps_b_sound. Qed.
+Print Assumptions C13_get_subdomain_hypotheses_decidable.
+
+(* where the faithful model contradicts the property (each confirmed on the real code by the check) *)
+Theorem C13_get_subdomain_raises_refuted :
+  exists D, ring3 = Ok D /\ valid_tuple D ["A"; "B"] = true /\
+            get_subdomain D (SelTuple ["A"; "B"]) = Err EType.
+Proof. exact get_subdomain_raises_refuted. Qed.
+Print Assumptions C13_get_subdomain_raises_refuted.
+
+Theorem C13_get_subdomain_self_interface_refuted :
+  exists D S, self_conn = Ok D /\ get_subdomain D (SelTuple ["A"]) = Ok (Some S) /\
+    ~ In (mkFace sqA 1 1) (d_boundary S) /\
+    forall i, In i (d_conn S) -> mkFace sqA 1 1 <> i_minus i /\ mkFace sqA 1 1 <> i_plus i.
+Proof. exact get_subdomain_self_interface_refuted. Qed.
+Print Assumptions C13_get_subdomain_self_interface_refuted.
+
+Theorem C13_map_joined_orientation_refuted :
+  exists J D L, joined_m1 = Ok J /\ map_domain "M" J = Ok D /\ d_logical D = Some L /\
+    map i_ornt (d_conn L) = [O2 (-1)] /\ map i_ornt (d_conn D) = [ONone].
+Proof. exact map_joined_orientation_refuted. Qed.
+Print Assumptions C13_map_joined_orientation_refuted.
+
+Theorem C13_map_joined_3d_refuted :
+  exists J, join [ncube_domain cbA; ncube_domain cbB]
+                 [ mkConn (mkSide (PIdx 0) 0 1) (mkSide (PIdx 1) 0 (-1)) None ] "J" = Ok J
+            /\ map_domain "M" J = Err EType.
+Proof. exact map_joined_3d_refuted. Qed.
+Print Assumptions C13_map_joined_3d_refuted.
+
+Theorem C13_twin_shared_logical_refuted :
+  exists D L,
+    join [patch_dom (mkPatch "A" (Some "F0") 2 ["0"; "0"] ["1"; "1"]);
+          patch_dom (mkPatch "A" (Some "F1") 2 ["0"; "0"] ["1"; "1"])]
+         [ mkConn (mkSide (PIdx 0) 0 1) (mkSide (PIdx 1) 0 (-1)) (Some (O2 1)) ] "Omega" = Ok D
+    /\ d_logical D = Some L /\ length (d_interiors D) = 2 /\ length (d_interiors L) = 1.
+Proof. exact twin_shared_logical_refuted. Qed.
+Print Assumptions C13_twin_shared_logical_refuted.
 
 (* the decidable form of the hypotheses, evaluated on every generated case by the check *)
 Theorem C13_hypotheses_decidable : forall ps cs,
